@@ -5,7 +5,7 @@ CONSTANTS Kinds = {"plain", "mixed"}
           MixedMethKeys = {"G", "GP"}
           MaxLen = 2
           MaxT = 2
-          ServerSet = {"none", "rel", "relslash", "relroot", "abs", "absvar", "two", "psfirst", "pslast"}
+          ServerSet = {"none", "rel", "relslash", "relroot", "abs", "absvar", "two", "psfirst", "pslast", "relpfx", "abspfx"}
           CoreLen = 2
           CoreT = 2
           CoreServers = {"none", "rel"}
